@@ -10,7 +10,7 @@
 EXTENDS Integers, Sequences, FiniteSets, TLC, Json
 
 Trace == ndJsonDeserialize("trace.ndjson")
-Ids == {"eA:pt", "eA:tomb", "eB:pt", "eB:tomb"}
+Ids == {e \o ":" \o k : e \in {"eA", "eB"}, k \in {"pt", "pt2", "ept", "tomb"}}
 VARIABLES l, newest, link
 tvars == <<l, newest, link>>
 TraceInit == l = 1 /\ newest = [i \in Ids |-> 0] /\ link = "up"
